@@ -28,6 +28,8 @@ ROOT = "protocol::context::reshard_try_stream"
 
 def run(ctx):
     facts = ctx.facts()
+    from rules import C17
+    C17.parse_errors(ctx, facts)      # the receive path parses records with RecordsStream: a parse error must surface
     tree = facts.tree(ROOT)
     if not tree:
         return ctx.missing("ROUTE", ROOT)
